@@ -388,10 +388,20 @@ func (ex *Exec) jsonMarshal(v Val, escapeHTML bool) (out Str, err Val) {
 }
 
 func sliceStr(v Val) Str {
+	if s, ok := v.(Str); ok {
+		return s // a native method handed its []byte result back as text
+	}
 	sl, _ := v.(Slice)
 	var out []Int
 	for _, e := range sl.elems() {
-		out = append(out, e.(Int))
+		switch x := e.(type) {
+		case Int:
+			out = append(out, x)
+		case Str:
+			out = append(out, x.B...)
+		default:
+			unsupported("a []byte whose elements are not bytes")
+		}
 	}
 	return Str{B: out}
 }
